@@ -26,4 +26,9 @@ TABLE = {
    text="Every population of <=2 (thorough <=3) of 26 before/on slots, every assignment of 8 typed return values (None, 0, '', [], [1,2], (1,), {}, 'x'), for external/self/internal transitions fired by either event, and for events that fire nothing, via send() and the event method, sync/async: the result must be None / the single value / the list of before-then-on results; guards, validators, exit, enter, after sentinels and nested events' results never appear.",
    note="Trusted: unwrap rule as stated in the property; before results first, multiset equality inside each group.",
    ref="DESIGN.md section 3 C14"),
+ "C13": dict(
+   technique="explicit-state product exploration: every (state, event, valuation) edge fired through six calling styles on the real library and compared with the reference; exhaustive name probe over dir(sm) in every state with a before/after snapshot",
+   text="On the C01 machine family (plus an inheritance rendering where a subclass adds transitions to inherited states via event=) every edge is executed via send(), the event method, the items of sm.events and sm.allowed_events, bind_events_to triggers and MachineMixin(bind_events_as_methods); every style must agree with the reference (hence with each other) on result, exception, trace and stored state; allowed_events (ordered, unique) and events are compared in every visited state. Every attribute name of the machine, every state id, '', '__initial__' and lookalike strings are sent in every state of strict and tolerant, sync and async machines: TransitionNotAllowed/None, no callback, snapshot unchanged.",
+   note="Trusted: mc/ref.py; the snapshot (model field, sm.__dict__ keys, listeners, queue, lock, callback counter) is what 'no other attribute was invoked' is judged by.",
+   ref="DESIGN.md section 3 C13"),
 }
